@@ -166,6 +166,9 @@ def main(argv=None):
 
 
 def _replay(prop, tier, seed, path, work):
+    mod = importlib.import_module("smverif.props." + prop.lower())
+    if hasattr(mod, "replay_main"):
+        return mod.replay_main(path, run_worker, work)
     out = os.path.join(work, "replay.json")
     rep = run_worker(prop, tier, seed, 0, 1, out, 600, replay=path)
     if rep.get("status") != "ok":
